@@ -1,0 +1,188 @@
+//go:build verif
+
+// Contracts for version vectors and cluster views (properties C16, C17). The //@ blocks are read by
+// /verif/engine (govc); the Go functions below are lemma functions: they call the real operations and
+// carry the property-level statement as their own contract, verified modularly (callee contracts only).
+
+package cluster
+
+// ---------------------------------------------------------------------------------------------
+// abstract view of a vector: A(m,k) = counter of node k (absent = 0)
+// ---------------------------------------------------------------------------------------------
+
+//@ pure A(m map[string]uint64, k string) mathint = m[k]
+//@ pure leq(a map[string]uint64, b map[string]uint64) bool = forall k string :: A(a, k) <= A(b, k)
+//@ pure cmp(a map[string]uint64, b map[string]uint64) mathint =
+//@     leq(a, b) && leq(b, a) ? VersionEqual : (leq(a, b) ? VersionBefore : (leq(b, a) ? VersionAfter : VersionConcurrent))
+//@ pure validNode(s string) bool = s != "" && len(s) <= 256
+
+//@ func (VersionVector).Get
+//@   ensures result == A(v.m, node)
+
+//@ func NewVersionVector
+//@   ensures result.m != nil && fresh(result.m) && len(result.m) == 0
+//@   ensures forall k string :: !(k in result.m)
+
+//@ func NewVersionVectorWithCapacity
+//@   ensures result.m != nil && fresh(result.m) && len(result.m) == 0
+//@   ensures forall k string :: !(k in result.m)
+
+//@ func (VersionVector).Clone
+//@   ensures result.m != nil && fresh(result.m)
+//@   ensures forall k string :: (k in result.m <==> k in v.m) && A(result.m, k) == A(v.m, k)
+//@ loop (VersionVector).Clone#1
+//@   invariant out.m != nil && allocated(out.m) && !allocated_old(out.m)
+//@   invariant forall k string :: (k in out.m <==> seen(k)) && (seen(k) ==> k in v.m && out.m[k] == v.m[k])
+
+//@ func validateNodeAddress
+//@   ensures result == nil <==> validNode(addr)
+
+//@ func (VersionVector).Increment
+//@   ensures result.1 == nil <==> (validNode(node) && A(v.m, node) < 9223372036854775807)
+//@   ensures result.1 == nil ==> result.0.m != nil && fresh(result.0.m)
+//@   ensures result.1 == nil ==> forall k string :: A(result.0.m, k) == (k == node ? A(v.m, k) + 1 : A(v.m, k))
+
+//@ func (VersionVector).Merge
+//@   ensures result.m != nil && fresh(result.m)
+//@   ensures forall k string :: A(result.m, k) == max(A(v.m, k), A(other.m, k))
+//@   ensures forall k string :: k in result.m <==> (k in v.m || k in other.m)
+//@ loop (VersionVector).Merge#2
+//@   invariant out.m != nil && allocated(out.m) && !allocated_old(out.m)
+//@   invariant forall k string :: (k in out.m <==> seen(k)) && (seen(k) ==> k in v.m && out.m[k] == v.m[k])
+//@ loop (VersionVector).Merge#3
+//@   invariant out.m != nil && allocated(out.m) && !allocated_old(out.m)
+//@   invariant forall k string :: k in out.m <==> (k in v.m || seen(k))
+//@   invariant forall k string :: seen(k) ==> k in other.m
+//@   invariant forall k string :: A(out.m, k) == (seen(k) ? max(A(v.m, k), A(other.m, k)) : A(v.m, k))
+
+//@ func (VersionVector).Compare
+//@   ensures result == cmp(v.m, other.m)
+//@ loop (VersionVector).Compare#1
+//@   invariant vLessOther    <==> exists k string :: seen(k) && A(v.m, k) < A(other.m, k)
+//@   invariant vGreaterOther <==> exists k string :: seen(k) && A(v.m, k) > A(other.m, k)
+//@   invariant forall k string :: seen(k) ==> k in v.m
+//@   invariant !(vLessOther && vGreaterOther)
+//@ loop (VersionVector).Compare#2
+//@   invariant vLessOther    <==> exists k string :: (k in v.m || seen(k)) && A(v.m, k) < A(other.m, k)
+//@   invariant vGreaterOther <==> exists k string :: A(v.m, k) > A(other.m, k)
+//@   invariant forall k string :: seen(k) ==> k in other.m
+//@   invariant !(vLessOther && vGreaterOther)
+
+//@ func (VersionVector).Equal
+//@   ensures result <==> cmp(v.m, other.m) == VersionEqual
+//@ func (VersionVector).HappensBefore
+//@   ensures result <==> cmp(v.m, other.m) == VersionBefore
+//@ func (VersionVector).HappensAfter
+//@   ensures result <==> cmp(v.m, other.m) == VersionAfter
+//@ func (VersionVector).IsConcurrentWith
+//@   ensures result <==> cmp(v.m, other.m) == VersionConcurrent
+
+//@ func (VersionVector).Compact
+//@   ensures forall k string :: A(result.m, k) == A(v.m, k)
+//@ loop (VersionVector).Compact#2
+//@   invariant out.m != nil && allocated(out.m) && !allocated_old(out.m)
+//@   invariant forall k string :: (k in out.m <==> (seen(k) && v.m[k] > 0)) && (k in out.m ==> out.m[k] == v.m[k])
+//@   invariant forall k string :: seen(k) ==> k in v.m
+
+// ---------------------------------------------------------------------------------------------
+// lattice laws over the abstract view (pure logic)
+// ---------------------------------------------------------------------------------------------
+
+//@ lemma cmp_refl: forall a map[string]uint64 :: cmp(a, a) == 0
+//@ lemma cmp_equal_iff: forall a map[string]uint64, b map[string]uint64 ::
+//@     cmp(a, b) == 0 <==> (forall k string :: A(a, k) == A(b, k))
+//@ lemma cmp_converse: forall a map[string]uint64, b map[string]uint64 ::
+//@     (cmp(a, b) == 1 <==> cmp(b, a) == 2) && (cmp(a, b) == 3 <==> cmp(b, a) == 3) && (cmp(a, b) == 0 <==> cmp(b, a) == 0)
+//@ lemma cmp_antisym: forall a map[string]uint64, b map[string]uint64 ::
+//@     !(cmp(a, b) == 1 && cmp(b, a) == 1)
+//@ lemma cmp_trans_before: forall a map[string]uint64, b map[string]uint64, c map[string]uint64 ::
+//@     (cmp(a, b) == 1 || cmp(a, b) == 0) && (cmp(b, c) == 1 || cmp(b, c) == 0) ==>
+//@     (cmp(a, c) == 1 || cmp(a, c) == 0) && ((cmp(a, b) == 1 || cmp(b, c) == 1) ==> cmp(a, c) == 1)
+
+// ---------------------------------------------------------------------------------------------
+// property-level lemma functions over the REAL operations (C16). Each is verified like any other
+// function: the calls are replaced by the callee contracts above.
+// ---------------------------------------------------------------------------------------------
+
+//@ func lemmaCompareReflexive
+//@   ensures result == VersionEqual
+func lemmaCompareReflexive(a VersionVector) VersionOrder { return a.Compare(a) }
+
+//@ func lemmaCompareConverse
+//@   ensures (x == VersionBefore <==> y == VersionAfter) && (x == VersionAfter <==> y == VersionBefore)
+//@   ensures (x == VersionConcurrent <==> y == VersionConcurrent) && (x == VersionEqual <==> y == VersionEqual)
+//@   ensures x == VersionEqual || x == VersionBefore || x == VersionAfter || x == VersionConcurrent
+func lemmaCompareConverse(a, b VersionVector) (x, y VersionOrder) {
+	x = a.Compare(b)
+	y = b.Compare(a)
+	return
+}
+
+// antisymmetry: a <= b and b <= a implies Equal (entry-wise, absent == explicit zero)
+//@ func lemmaCompareAntisymmetric
+//@   ensures (x == VersionBefore || x == VersionEqual) && (y == VersionBefore || y == VersionEqual) ==> x == VersionEqual && y == VersionEqual
+//@   ensures x == VersionEqual ==> forall k string :: A(a.m, k) == A(b.m, k)
+func lemmaCompareAntisymmetric(a, b VersionVector) (x, y VersionOrder) {
+	x = a.Compare(b)
+	y = b.Compare(a)
+	return
+}
+
+//@ func lemmaCompareTransitive
+//@   ensures (x == VersionBefore || x == VersionEqual) && (y == VersionBefore || y == VersionEqual) ==> (z == VersionBefore || z == VersionEqual)
+//@   ensures (x == VersionBefore && (y == VersionBefore || y == VersionEqual)) || (y == VersionBefore && (x == VersionBefore || x == VersionEqual)) ==> z == VersionBefore
+//@   ensures x == VersionEqual && y == VersionEqual ==> z == VersionEqual
+func lemmaCompareTransitive(a, b, c VersionVector) (x, y, z VersionOrder) {
+	x = a.Compare(b)
+	y = b.Compare(c)
+	z = a.Compare(c)
+	return
+}
+
+//@ func lemmaMergeCommutative
+//@   ensures result == VersionEqual
+func lemmaMergeCommutative(a, b VersionVector) VersionOrder { return a.Merge(b).Compare(b.Merge(a)) }
+
+//@ func lemmaMergeAssociative
+//@   ensures result == VersionEqual
+func lemmaMergeAssociative(a, b, c VersionVector) VersionOrder {
+	return a.Merge(b).Merge(c).Compare(a.Merge(b.Merge(c)))
+}
+
+//@ func lemmaMergeIdempotent
+//@   ensures result == VersionEqual
+func lemmaMergeIdempotent(a VersionVector) VersionOrder { return a.Merge(a).Compare(a) }
+
+// the merge is an upper bound of both arguments ...
+//@ func lemmaMergeUpperBound
+//@   ensures (x == VersionEqual || x == VersionAfter) && (y == VersionEqual || y == VersionAfter)
+func lemmaMergeUpperBound(a, b VersionVector) (x, y VersionOrder) {
+	m := a.Merge(b)
+	return m.Compare(a), m.Compare(b)
+}
+
+// ... and the least one: any u that is not-before-and-comparable-above both is above the merge
+//@ func lemmaMergeLeastUpperBound
+//@   ensures (ua == VersionEqual || ua == VersionAfter) && (ub == VersionEqual || ub == VersionAfter) ==> (um == VersionEqual || um == VersionAfter)
+func lemmaMergeLeastUpperBound(a, b, u VersionVector) (ua, ub, um VersionOrder) {
+	ua = u.Compare(a)
+	ub = u.Compare(b)
+	um = u.Compare(a.Merge(b))
+	return
+}
+
+//@ func lemmaIncrementStrictlyAfter
+//@   ensures err == nil ==> ord == VersionAfter
+//@   ensures err == nil <==> (validNode(node) && A(a.m, node) < 9223372036854775807)
+func lemmaIncrementStrictlyAfter(a VersionVector, node string) (ord VersionOrder, err error) {
+	r, err := a.Increment(node)
+	if err != nil {
+		return VersionEqual, err
+	}
+	return r.Compare(a), nil
+}
+
+// absent entries and explicit zeros are the same vector; Compact does not change the vector
+//@ func lemmaCompactEqual
+//@   ensures result == VersionEqual
+func lemmaCompactEqual(a VersionVector) VersionOrder { return a.Compact().Compare(a) }
